@@ -421,6 +421,18 @@ fn session_inner(l: &Launch, seed: u64) -> (Vec<(String, String)>, u64) {
     if !findings.is_empty() {
         return (findings, nreq);
     }
+    // From here on somebody else has the database open too (an operator's sqlite3 shell, a
+    // backup job): the server's connections are then never the last to close, nothing is
+    // checkpointed, and at the time of the kill the acknowledged history lives in the
+    // write-ahead log - which is what a restart has to recover from.
+    let held = rusqlite::Connection::open(dir.join(DB_FILE)).ok().and_then(|con| {
+        con.busy_timeout(Duration::from_secs(5)).ok();
+        let n: Option<i64> = con.query_row("SELECT count(*) FROM clients", [], |r| r.get(0)).ok();
+        n.map(|_| con)
+    });
+    if held.is_none() {
+        bad!("machinery", "could not open a second connection to the server's database");
+    }
     let sdata: Vec<u8> = (0..5000).map(|i| (i * 13) as u8).collect();
     nreq += 1;
     let ad = next_addr(&addrs);
@@ -520,12 +532,64 @@ fn session_inner(l: &Launch, seed: u64) -> (Vec<(String, String)>, u64) {
             }
         }
     }
+    // ---- allow-list, per request and not per connection: after a served request of a listed
+    // client, requests of an unlisted client on the SAME keep-alive connection are refused
+    if l.allow >= 1 {
+        let unlisted = ids.clients[2];
+        let req = |m: &str, path: &str, who: Uuid, body: Option<(&str, &[u8])>, close: bool| -> Vec<u8> {
+            let mut r = format!("{m} {path} HTTP/1.1\r\nHost: {}\r\nX-Client-Id: {who}\r\n", addrs[0]);
+            if let Some((ct, b)) = body {
+                r.push_str(&format!("Content-Type: {ct}\r\nContent-Length: {}\r\n", b.len()));
+            }
+            if close {
+                r.push_str("Connection: close\r\n");
+            }
+            r.push_str("\r\n");
+            let mut v = r.into_bytes();
+            if let Some((_, b)) = body {
+                v.extend_from_slice(b);
+            }
+            v
+        };
+        let gc = format!("/v1/client/get-child-version/{}", Uuid::nil());
+        let av = format!("/v1/client/add-version/{}", Uuid::nil());
+        let asn = format!("/v1/client/add-snapshot/{}", det_uuid(seed, 22, 3));
+        let reqs = vec![
+            req("GET", &gc, a_id, None, false),
+            req("GET", &gc, unlisted, None, false),
+            req("GET", "/v1/client/snapshot", unlisted, None, false),
+            req("POST", &av, unlisted, Some((HS_CT, b"smuggled")), false),
+            req("POST", &asn, unlisted, Some((SNAP_CT, b"smuggled")), false),
+            req("GET", &gc, a_id, None, true),
+        ];
+        nreq += reqs.len() as u64;
+        match one_connection(&addrs[0], &reqs) {
+            Ok(ans) => {
+                if ans.len() != reqs.len() {
+                    bad!("machinery", "{} requests on one connection got {} answers", reqs.len(), ans.len());
+                }
+                for (k, a) in ans.iter().enumerate() {
+                    let want_403 = (1..=4).contains(&k);
+                    if want_403 && a.status != 403 {
+                        bad!("allow-list-not-enforced", "on a keep-alive connection that had just served a listed client, request {k} of an unlisted client answered {} instead of 403", a.status);
+                    }
+                    if !want_403 && a.status == 403 {
+                        bad!("listed-client-refused", "on a keep-alive connection request {k} of the listed client answered 403");
+                    }
+                }
+            }
+            Err(e) => bad!("address-not-served", "requests on one keep-alive connection: {e}"),
+        }
+    }
     // ---- kill -9 and restart on the same directory
     unsafe {
         libc::kill(run.child.id() as i32, libc::SIGKILL);
     }
     let _ = run.child.wait();
     drop(run);
+    // the other holder of the database does not close it cleanly either (closing it now would
+    // checkpoint the log on the server's behalf)
+    std::mem::forget(held);
     let mut run2 = None;
     for attempt in 0..4 {
         // same addresses first; fresh ports if they are still in TIME_WAIT
@@ -987,6 +1051,33 @@ pub fn wire_session(seed: u64) -> (Vec<(String, String)>, u64) {
                 }
             }
             Err(e) => findings.push(("keep-alive|no-answer".into(), format!("requests on one keep-alive connection: {e}"))),
+        }
+    }
+    // ---- HTTP/1.0 requests (what a reverse proxy speaks to its upstream by default): answered
+    // like any other, with the headers every response must carry
+    {
+        let gc = format!("/v1/client/get-child-version/{}", Uuid::nil());
+        for (path, who) in [("/", None), (gc.as_str(), Some(c)), ("/v1/client/snapshot", Some(c)), ("/v1/client/nope", Some(c)), (gc.as_str(), None)] {
+            nreq += 1;
+            let mut r = format!("GET {path} HTTP/1.0\r\nHost: {addr}\r\n");
+            if let Some(w) = who {
+                r.push_str(&format!("X-Client-Id: {w}\r\n"));
+            }
+            r.push_str("\r\n");
+            match one_connection(&addr, &[r.into_bytes()]) {
+                Ok(ans) if ans.len() == 1 => {
+                    let a = &ans[0];
+                    if a.status >= 500 {
+                        findings.push(("http10|5xx".into(), format!("GET {path} HTTP/1.0 answered {}", a.status)));
+                    }
+                    let ok_cc = a.headers.iter().any(|(h, v)| h == "cache-control" && String::from_utf8_lossy(v).to_ascii_lowercase().contains("no-store"));
+                    if !ok_cc {
+                        NO_CC.with(|x| x.borrow_mut().push(format!("GET {path} HTTP/1.0 answered {} without Cache-Control: no-store", a.status)));
+                    }
+                }
+                Ok(ans) => findings.push(("http10|no-answer".into(), format!("GET {path} HTTP/1.0 got {} answers", ans.len()))),
+                Err(e) => findings.push(("http10|no-answer".into(), format!("GET {path} HTTP/1.0: {e}"))),
+            }
         }
     }
     // and the server is still there, unchanged
